@@ -103,7 +103,8 @@ if exe:
              (c.expect is None or len(c.expect) < 300000)]
     if ck.quick:
         rng.shuffle(cases)
-        cases = cases[:300]
+        cases = [c for c in cases if c.tag == 'worst-case-groups'] + \
+            [c for c in cases if c.tag != 'worst-case-groups'][:300]
     for c in cases:
         env = dict(env0)
         env.update(S.config_env(rng))
@@ -111,6 +112,16 @@ if exe:
         jobs.append(dict(exe=exe, args=['-d', '-n%d' % n], data=c.data,
                          env=env, timeout=300))
         meta.append((c.name, c.data, c.expect, n, env))
+    # worst-case groups at every alignment against input buffers of 31..33
+    # and 63..65 words (the fast path's 32-word look-ahead)
+    for c in cases:
+        if c.tag == 'worst-case-groups':
+            for ig in (124, 128, 132, 252, 256, 260):
+                env = dict(env0)
+                env['LBZIP2_VERIF_IN_GRANUL'] = str(ig)
+                jobs.append(dict(exe=exe, args=['-d', '-n2'], data=c.data,
+                                 env=env, timeout=300))
+                meta.append((c.name, c.data, c.expect, 2, env))
     for name, data, plain, tag in S.planted_streams(rng, ck.quick):
         for _ in range(3 if ck.quick else 12):
             env = dict(env0)
